@@ -32,7 +32,12 @@ impl<T> Sender<T> {
     #[track_caller]
     pub fn send(&self, msg: T) -> Result<(), std::sync::mpsc::SendError<T>> {
         self.object.send(location!());
-        self.sender.send(msg)
+        self.sender.send(msg).map_err(|err| {
+            // The receiver is gone and the message goes back to the caller: it
+            // never was in the channel.
+            self.object.send_failed();
+            err
+        })
     }
 }
 
